@@ -39,7 +39,8 @@ META = dict(
 )
 MODULE = "OPM.Properties.C40"
 REQUIRED = ["OPM.C40.mutual_exclusion", "OPM.C40.locked_request_serializes", "OPM.C40.unlocked_request_not_serial",
-            "OPM.C40.tick_execute_phase_under_lock", "OPM.C40.every_entry_point_locked", "OPM.C40.c40"]
+            "OPM.C40.tick_execute_phase_under_lock", "OPM.C40.command_and_write_phase_under_lock",
+            "OPM.C40.nested_yield_points", "OPM.C40.every_entry_point_locked", "OPM.C40.c40"]
 
 PROGRAMS = {
     "cmds": "Mark: A\nCmdA\nMark: B\nCmdB\nMark: C\n",
@@ -48,6 +49,7 @@ PROGRAMS = {
     "watch": "Watch: T0 > 0\n    Mark: W\n    CmdA\nMark: A\nWait: 1s\nMark: B\n",
     "block": "Block: B1\n    Mark: A\n    CmdC\n    End block\nMark: B\n",
     "restart": "Mark: A\nRestart\nMark: B\n",
+    "long": "CmdC\nWait: 2s\nMark: A\n",     # CmdC executes for 6 ticks: requests can arrive inside its exec function
 }
 REQUESTS: dict[str, list] = {
     "edit": ["edit", "Mark: Z\n"],            # live edit: the method with one line appended
@@ -263,10 +265,18 @@ def failure_of(combo: Combo, rec: dict) -> Failure | None:
 def run(ctx: Check) -> int:
     from harness import engine_coop as EC
     from harness.translators import lock_table
-    table = lock_table.generate()
-    ctx.extra["lock_table"] = {"locks": table["locks"], "tick": table["tick"],
+    # The regenerated table is a file shared by every run in this tree; another run (on another source tree) may
+    # rewrite it between our regeneration and the Lean build.  Re-check after the build and repeat if it was replaced.
+    for attempt in range(4):
+        table = lock_table.generate()
+        expected = lock_table.OUT.read_text()
+        ctx.proof_broken.clear()
+        ctx.prove(MODULE, REQUIRED)
+        if lock_table.OUT.read_text() == expected:
+            break
+        ctx.notes.append(f"lock table was rewritten by a concurrent run during the build (attempt {attempt + 1})")
+    ctx.extra["lock_table"] = {"locks": table["locks"], "tick": table["tick"], "nested": table["nested"],
                                "entries": [[n, lk, t] for (n, lk, t) in table["entries"]]}
-    ctx.prove(MODULE, REQUIRED)
     rng = ctx.rng
     thorough = ctx.tier == "thorough"
 
@@ -303,12 +313,15 @@ def run(ctx: Check) -> int:
         for warm in warms:
             for rq in REQUESTS:
                 combo = combo_for(prog, warm, [rq])
-                for p in range(0, 11):
+                n_t = add(combo, "tr")["made"].count("T")      # the tick alone first: how many segments it has here
+                n_atomic += 1
+                for p in range(0, n_t):
                     add(combo, "T" * p + "r")
                     n_atomic += 1
     # (b) all interleavings (also at the request's own yield points) for selected combos; one and two requests
     full = [("cmds", 5, ["edit"]), ("cmds", 1, ["edit"]), ("cmds", 5, ["cmdb"]), ("pause", 5, ["pause"]),
-            ("stop", 3, ["hold"]), ("block", 4, ["cancel"]), ("watch", 4, ["force"]), ("cmds", 3, ["inject-cmd"])]
+            ("stop", 3, ["hold"]), ("block", 4, ["cancel"]), ("watch", 4, ["force"]), ("cmds", 3, ["inject-cmd"]),
+            ("long", 4, ["cancel"]), ("long", 4, ["edit"])]
     two = [("cmds", 5, ["edit", "cmdb"]), ("block", 4, ["cancel", "inject-mark"]), ("pause", 5, ["pause", "edit"])]
     if thorough:
         # all interleavings for every method x every request at warm-up 1/3/5, three methods also at 2/4/6
@@ -319,7 +332,7 @@ def run(ctx: Check) -> int:
                 ("pause", 4, ["hold", "pause"]), ("watch", 3, ["edit", "force"]), ("stop", 2, ["cmdb", "stop"]),
                 ("restart", 4, ["edit", "inject-mark"]), ("block", 5, ["cancel", "cancel"]),
                 ("cmds", 6, ["stop", "cmdb"]), ("pause", 6, ["edit", "inject-cmd"])]
-    per_combo_limit = ctx.n(80, 6000)
+    per_combo_limit = ctx.n(50, 6000)
     # the all-interleavings part stops taking up new combos after this much wall time, so that a tree on which the
     # entry points do not block (many more interleavings per combo) still finishes within the tier's budget
     budget_s = 540.0 if thorough else float("inf")   # quick is bounded by the per-combo limit alone (deterministic)
@@ -349,10 +362,11 @@ def run(ctx: Check) -> int:
                               "all_interleavings_selected_combos": n_full,
                               "all_interleavings_combos_skipped_for_time": skipped, "distinct_cases": len(cases),
                               "combos": len(combos)}
-    ctx.rule = ("case = (method, number of warm-up ticks, one or two requests, schedule); 6 methods (UOD commands, Stop, "
-                "timed Pause, Watch+Wait, Block, Restart) x warm-up 5 (thorough 0-6) x 9 requests (live edit, inject "
+    ctx.rule = ("case = (method, number of warm-up ticks, one or two requests, schedule); 7 methods (UOD commands, Stop, "
+                "timed Pause, Watch+Wait, Block, Restart, long-running UOD command) x warm-up 5 (thorough 0-6) x 9 requests (live edit, inject "
                 "mark / command, Pause, Hold, Stop, user UOD command, cancel, force) with the request as a whole placed "
-                "at each yield point of the tick; for selected combos with one and with two requests (thorough: every method x every "
+                "at each yield point of the tick (between its sub-calls, and inside them: before the hardware read, "
+                "before every UOD exec function of the command phase, before the hardware write); for selected combos with one and with two requests (thorough: every method x every "
                 "request at warm-up 1/3/5, three methods also at 2/4/6, 16 two-request combos) all interleavings "
                 "at the yield points of both threads (stateless search over the choices the real run has enabled); "
                 "random schedules. Non-trivial = the request thread ran while the ticking thread was between its first "
@@ -363,6 +377,8 @@ def run(ctx: Check) -> int:
         ws = [x.split(":")[0] for x in tr[len("trace="):].split(",")]
         return "R" in ws[ws.index("T"):len(ws) - ws[::-1].index("T")] if "T" in ws else False
 
+    if lock_table.OUT.read_text() != expected:            # see above: make the driver read our table
+        lock_table.generate()
     impl_out, model_out = ctx.correspond("schedules", "TickLock", cases,
                                          lambda c: ["sched\t" + records[key(c)]["line"]],
                                          lambda c: [records[key(c)]["out"]], nontrivial=nontrivial)
@@ -384,7 +400,7 @@ def run(ctx: Check) -> int:
                        "requests in order", "observation = request results, run-state flags, System State / Method Status"
                        " / Mark / Block / Run Counter values, node states, UOD command init/exec/finalize log, command "
                        "queue and executing list, command instances, method lines, interrupts, run log; tag time stamps "
-                       "are not compared", "exhaustive over the stated combos and yield points (quick tier: at most 80 schedules per all-interleavings "
+                       "are not compared", "exhaustive over the stated combos and yield points (quick tier: at most 50 schedules per all-interleavings "
                        "combo); other combos sampled"]
     return ctx.finish()
 
